@@ -433,6 +433,8 @@ impl<'a> UserModel<'a> {
                     worksheet.color = old_data.color.clone();
                     worksheet.merge_cells = old_data.merge_cells.clone();
                     worksheet.shared_formulas = old_data.shared_formulas.clone();
+                    worksheet.links = old_data.links.clone();
+                    worksheet.conditional_formatting = old_data.conditional_formatting.clone();
                     self.model.reset_parsed_structures();
 
                     self.set_selected_sheet(sheet_index)?;
